@@ -20,7 +20,7 @@ vars == <<l, st, viol>>
 Ev == Trace[l]
 IsEvent(k) == l <= Len(Trace) /\ Ev.ev = k /\ l' = l + 1
 
-Known == {"Reset", "Emit", "Proc", "Write", "Confirm", "Reject", "DlqWrite", "DlqConfirm", "DlqReject",
+Known == {"Reset", "Emit", "EmitLost", "Proc", "Write", "Confirm", "Reject", "DlqWrite", "DlqConfirm", "DlqReject",
           "SrcAck", "Durable", "Open", "Teardown", "Restore", "Call", "Ret", "End", "Hang", "Panic",
           "Fault", "HarnessError", "ChildTimeout"}
 
@@ -28,7 +28,7 @@ Empty == [scen |-> "", engine |-> "", srcs |-> {}, dsts |-> {}, feats |-> {},
           emitted |-> <<>>, pend |-> <<>>, wr |-> <<>>, acked |-> <<>>, stored |-> <<>>,
           dlqW |-> <<>>, dlqP |-> {}, dlqDone |-> {}, dlqFail |-> {}, rej |-> {},
           opens |-> <<>>, tears |-> <<>>, crashed |-> FALSE, bad |-> FALSE, ended |-> FALSE,
-          stopRet |-> FALSE, status |-> 0]
+          stopRet |-> FALSE, status |-> 0, win |-> 0, thr |-> 0]
 
 Init == l = 1 /\ st = Empty /\ viol = {}
 
@@ -42,6 +42,17 @@ Org == <<Ev.src, Ev.idx>>
 
 Rng(f) == {f[x] : x \in DOMAIN f}
 
+(* C07: the nack window.  Outcomes of source s before index i, in read order (TRUE = dead-lettered);
+   both engines hand outcomes to the window in read order (v1: one window per pipeline, so this is
+   only well defined for single-source pipelines; v2: one window per source). *)
+LastN(q, k) == IF Len(q) <= k THEN q ELSE SubSeq(q, Len(q) - k + 1, Len(q))
+CountNack(q) == Cardinality({k \in DOMAIN q : q[k]})
+Tolerated(h) == st.win = 0 \/ CountNack(LastN(Append(h, TRUE), st.win)) <= st.thr
+OutcomesBefore(s, i) ==
+  LET before == SelectSeq(st.emitted[s], LAMBDA j : j < i) IN
+  [k \in DOMAIN before |-> <<s, before[k]>> \in Rng(st.dlqW)]
+WindowWellDefined == st.engine = "v2" \/ Cardinality(st.srcs) = 1
+
 (* ---------------------------------------------------------------------------------------- *)
 Reset ==
   /\ IsEvent("Reset")
@@ -50,6 +61,8 @@ Reset ==
   /\ LET S == ToSet(Ev.srcs)  D == ToSet(Ev.dsts) IN
      st' = [Empty EXCEPT !.scen = Ev.scenario, !.engine = Ev.engine, !.srcs = S, !.dsts = D,
               !.feats = ToSet(Ev.features),
+              !.win = IF "window" \in DOMAIN Ev THEN Ev.window ELSE 0,
+              !.thr = IF "threshold" \in DOMAIN Ev THEN Ev.threshold ELSE 0,
               !.emitted = [s \in S |-> <<>>], !.acked = [s \in S |-> <<>>],
               !.stored = [s \in S |-> 0],
               !.pend = [d \in D |-> {}], !.wr = [d \in D |-> <<>>],
@@ -61,6 +74,16 @@ Emit ==
        THEN st' = [st EXCEPT !.emitted[Ev.src] = Append(@, Ev.idx),
                              !.pend = [d \in st.dsts |-> st.pend[d] \cup {<<Ev.src, Ev.idx, <<>>>>}]]
        ELSE st' = [st EXCEPT !.bad = TRUE]
+  /\ UNCHANGED viol
+
+\* a batch that was logged as emitted but never reached the engine (its stream was closed first)
+EmitLost ==
+  /\ IsEvent("EmitLost")
+  /\ LET lost == ToSet(Ev.idxs) IN
+     st' = IF IsSrc(Ev.src)
+             THEN [st EXCEPT !.emitted[Ev.src] = SelectSeq(@, LAMBDA i : i \notin lost),
+                             !.pend = [d \in st.dsts |-> {x \in st.pend[d] : ~(x[1] = Ev.src /\ x[2] \in lost)}]]
+             ELSE st
   /\ UNCHANGED viol
 
 Proc ==
@@ -104,6 +127,12 @@ DlqWrite ==
                  \cup Add(\A k \in 1..Len(st.dlqW) :
                             st.dlqW[k][1] = Ev.src => st.dlqW[k][2] <= Ev.idx, "DlqSourceOrder", Ev.tag)
                  \cup Add(~(Ev.idx \in Rng(st.acked[Ev.src])), "DlqBeforeAck", Ev.tag)
+                 \* C08: a failed piece dead-letters the ORIGINAL record (with its original position)
+                 \cup Add(Ev.path = <<>>, "DlqOriginal", Ev.tag)
+                 \* the engine dead-letters only what the window policy tolerates
+                 \cup (IF WindowWellDefined /\ ~(Org \in Rng(st.dlqW))
+                        THEN Add(Tolerated(OutcomesBefore(Ev.src, Ev.idx)), "DlqDecision", Ev.tag)
+                        ELSE {})
        ELSE /\ st' = [st EXCEPT !.bad = TRUE]
             /\ viol' = viol \cup {V("DlqCarriesOriginal", Ev.pos)}
 
@@ -125,6 +154,8 @@ SrcAck ==
                  \cup Add(CanAck(st, Org), "NoEarlyAck", Ev.pos)
                  \cup Add(NextInOrder(st, Ev.src, Ev.idx), "AckPrefix", Ev.pos)
                  \cup Add(st.stored[Ev.src] >= Ev.idx, "AckAfterDurable", Ev.pos)
+                 \* C08: only positions the source itself produced are ever acknowledged
+                 \cup Add(Ev.idx > 0, "PositionImmutable", Ev.pos)
        ELSE /\ st' = [st EXCEPT !.bad = TRUE]
             /\ UNCHANGED viol
 
@@ -216,10 +247,38 @@ Ret ==
             /\ st' = [st EXCEPT !.stopRet = TRUE]
        ELSE UNCHANGED <<st, viol>>
 
+\* rejected origins of source s that were neither dead-lettered nor (therefore) allowed to be acked
+Refused(s) == {x[2] : x \in {y \in st.rej : y[1] = s /\ ~(Origin(y) \in Rng(st.dlqW))}}
+MinOf(S) == CHOOSE x \in S : \A y \in S : x <= y
+
+\* C08: when the run ended without a failure every record read has exactly one outcome, decided by
+\* its own results only: rejected/errored => dead-lettered (once, confirmed) and acknowledged;
+\* otherwise never dead-lettered, nothing owed by any destination, acknowledged
+Rejected(o) == \E x \in st.rej : Origin(x) = o
+OneOutcome(o) ==
+  /\ o[2] \in Rng(st.acked[o[1]])
+  /\ IF Rejected(o) THEN o \in st.dlqDone
+     ELSE ~(o \in Rng(st.dlqW)) /\ Owing(st, o) = {}
+
 End ==
   /\ IsEvent("End")
   /\ st' = [st EXCEPT !.ended = TRUE]
   /\ viol' = viol
+       \cup (IF Ev.status = "UserStopped" /\ Ev.error = "" /\ "accounting" \in st.feats
+               THEN UNION {UNION {Add(OneOutcome(<<s, st.emitted[s][k]>>), "ExactlyOne", <<s, st.emitted[s][k]>>)
+                                  : k \in 1..Len(st.emitted[s])} : s \in st.srcs}
+               ELSE {})
+       \* C07 (policy family: one source, one destination, no other fault): the first rejected
+       \* record that was not dead-lettered must be one the policy refuses, it stays unacknowledged
+       \* and the pipeline did not end as healthy-stopped
+       \cup (IF "dlq-policy" \in st.feats
+               THEN UNION {IF Refused(s) = {} THEN {}
+                           ELSE LET r == MinOf(Refused(s)) IN
+                                Add(~Tolerated(OutcomesBefore(s, r)), "DlqDecision", <<"refused although tolerated", s, r>>)
+                                \cup Add(~(r \in Rng(st.acked[s])), "DlqFailNoAck", <<"refused record acked", s, r>>)
+                                \cup Add(Ev.status = "Degraded", "DlqStops", <<"pipeline not degraded", Ev.status>>)
+                           : s \in st.srcs}
+               ELSE {})
        \cup (IF "healthy" \in st.feats /\ "graceful" \in st.feats
                THEN Add(Settled, "NoHalfHandled", "at end")
                     \cup Add(StoredIsLastAcked, "StoredIsLastAcked", "at end")
@@ -232,7 +291,7 @@ Fault == IsEvent("Fault") /\ UNCHANGED <<st, viol>>
 HarnessError == (IsEvent("HarnessError") \/ IsEvent("ChildTimeout")) /\ st' = [st EXCEPT !.bad = TRUE] /\ UNCHANGED viol
 Other == l <= Len(Trace) /\ Ev.ev \notin Known /\ l' = l + 1 /\ UNCHANGED <<st, viol>>
 
-Next == \/ Reset \/ Emit \/ Proc \/ Write \/ Confirm \/ Reject \/ DlqWrite \/ DlqConfirm \/ DlqReject
+Next == \/ Reset \/ Emit \/ EmitLost \/ Proc \/ Write \/ Confirm \/ Reject \/ DlqWrite \/ DlqConfirm \/ DlqReject
         \/ SrcAck \/ Durable \/ Open \/ Teardown \/ Restore \/ Call \/ Ret \/ End \/ Hang \/ Panic
         \/ Fault \/ HarnessError \/ Other
 
